@@ -160,6 +160,10 @@ func payloadFor(reqID, idx int, dir byte, m MsgSpec) []byte {
 type MsgSpec struct {
 	Size int    `json:"size"`
 	Seed uint64 `json:"seed"`
+	// Plain: on a stream that negotiated compression this message still goes
+	// out with the compressed flag 0 (legal per message; grpc-go does it for
+	// empty messages)
+	Plain bool `json:"plain,omitempty"`
 }
 
 // ---- handler scripts ---------------------------------------------------------
